@@ -317,6 +317,26 @@ func TestVerifC18(t *testing.T) {
 			}
 		}
 	}
+	// stratum: ONE element of every size 0..70 (a lone 32-byte element looks like a hash: Mb and N treat |v| = 1 specially), and
+	// two / three elements of exactly 32 bytes, both hashes
+	for sz := 0; sz <= 70; sz++ {
+		for k := 1; k <= 3; k++ {
+			ci := 100000 + sz*4 + k
+			if !h.Mine("single", ci) || (k > 1 && sz != 32) {
+				continue
+			}
+			h.CaseLight("single", ci)
+			r := h.Rng("single", ci)
+			v := make([][]byte, k)
+			for i := range v {
+				v[i] = r.Bytes(sz)
+			}
+			for _, hs := range hashes {
+				run("single", ci, v, hs.name, hs.f)
+			}
+			h.Inc("single_element_sequences")
+		}
+	}
 	// stratum: larger random lengths (thorough)
 	nl := h.N(40, 600)
 	for i := 0; i < nl; i++ {
